@@ -19,22 +19,23 @@ import (
 )
 
 type resOp struct {
-	Op      string   `json:"op"`
-	Name    string   `json:"name"`
-	Expect  string   `json:"expect"`
-	Sid     int      `json:"sid"`
-	Suite   string   `json:"suite"`
-	Hascert bool     `json:"hascert"`
-	Offered bool     `json:"offered"`
-	Keep    bool     `json:"keep"`
-	S       []string `json:"s"`
-	A       string   `json:"a"`
-	Ccert   bool     `json:"ccert"`
-	B       bool     `json:"b"`
-	V       int      `json:"v"`
-	Region  string   `json:"region"`
-	Byte    int      `json:"byte"` // driver-side: which byte of the region (-1: middle)
-	Vers    int      `json:"vers"` // connect: the version in force according to the specification
+	Op        string   `json:"op"`
+	Name      string   `json:"name"`
+	Expect    string   `json:"expect"`
+	Sid       int      `json:"sid"`
+	Suite     string   `json:"suite"`
+	Hascert   bool     `json:"hascert"`
+	Offered   bool     `json:"offered"`
+	Keep      bool     `json:"keep"`
+	S         []string `json:"s"`
+	A         string   `json:"a"`
+	Ccert     bool     `json:"ccert"`
+	Untrusted bool     `json:"untrusted"` // auth: the client's certificate is issued by a CA the server does not trust
+	B         bool     `json:"b"`
+	V         int      `json:"v"`
+	Region    string   `json:"region"`
+	Byte      int      `json:"byte"` // driver-side: which byte of the region (-1: middle)
+	Vers      int      `json:"vers"` // connect: the version in force according to the specification
 }
 
 type resObs struct {
@@ -91,6 +92,7 @@ func runHistory(ops []resOp, proto string, capN int) ([]resObs, error) {
 	ssuites := map[string]bool{"CBC": true, "GCM": true}
 	csuites := map[string]bool{"CBC": true, "GCM": true}
 	cauth, ccert, disabled := "none", false, false
+	cuntrusted := false
 	cvers := uint16(gmtls.VersionTLS12)
 	cache := gmtls.NewLRUClientSessionCache(capN)
 	msOfSid := map[int][]byte{}
@@ -115,7 +117,7 @@ func runHistory(ops []resOp, proto string, capN int) ([]resObs, error) {
 				csuites[s] = true
 			}
 		case "auth":
-			cauth, ccert = op.A, op.Ccert
+			cauth, ccert, cuntrusted = op.A, op.Ccert, op.Untrusted
 		case "disabled":
 			disabled = op.B
 		case "vers":
@@ -170,6 +172,14 @@ func runHistory(ops []resOp, proto string, capN int) ([]resObs, error) {
 			} else if op.Vers == 12 {
 				cvers = gmtls.VersionTLS12
 			}
+			authSM2, authRSA := f.auth, f.rsaAuth
+			if cuntrusted {
+				rg, err := loadRogue()
+				if err != nil {
+					return nil, err
+				}
+				authSM2, authRSA = rg.sm2, rg.rsa
+			}
 			build := func() (sc, cc *gmtls.Config, err error) {
 				if proto == "auto_gm" || proto == "auto_tls" {
 					// the auto-switch server of the documentation, serving whichever protocol the client speaks
@@ -181,12 +191,12 @@ func runHistory(ops []resOp, proto string, capN int) ([]resObs, error) {
 					if proto == "auto_gm" {
 						cc = &gmtls.Config{GMSupport: &gmtls.GMSupport{}, InsecureSkipVerify: true}
 						if ccert {
-							cc.Certificates = []gmtls.Certificate{f.auth}
+							cc.Certificates = []gmtls.Certificate{authSM2}
 						}
 					} else {
 						cc = &gmtls.Config{InsecureSkipVerify: true, MaxVersion: cvers}
 						if ccert {
-							cc.Certificates = []gmtls.Certificate{f.rsaAuth}
+							cc.Certificates = []gmtls.Certificate{authRSA}
 						}
 					}
 					both := x509.NewCertPool()
@@ -199,14 +209,14 @@ func runHistory(ops []resOp, proto string, capN int) ([]resObs, error) {
 					sc = &gmtls.Config{GMSupport: &gmtls.GMSupport{}, Certificates: []gmtls.Certificate{f.sig, f.enc}}
 					cc = &gmtls.Config{GMSupport: &gmtls.GMSupport{}, InsecureSkipVerify: true}
 					if ccert {
-						cc.Certificates = []gmtls.Certificate{f.auth}
+						cc.Certificates = []gmtls.Certificate{authSM2}
 					}
 					sc.ClientCAs = f.sm2CA
 				} else {
 					sc = &gmtls.Config{Certificates: []gmtls.Certificate{f.rsa}}
 					cc = &gmtls.Config{InsecureSkipVerify: true, MaxVersion: cvers}
 					if ccert {
-						cc.Certificates = []gmtls.Certificate{f.rsaAuth}
+						cc.Certificates = []gmtls.Certificate{authRSA}
 					}
 					sc.ClientCAs = f.rsaCA
 				}
